@@ -79,6 +79,7 @@ type seqProfile struct {
 	deleteHeavy bool
 	overlap     bool // C03: bias to the same keys inside transactions
 	levels      []int
+	held        int // percent chance per step of opening a reader that is read only some steps later
 }
 
 func genSeqCase(r *simrt.Rand, p seqProfile) SeqCase {
@@ -121,7 +122,31 @@ func genSeqCase(r *simrt.Rand, p seqProfile) SeqCase {
 		}
 		return o
 	}
+	var pending []int // slots of readers handed out and not read yet
+	nextReader := 0
+	flushReaders := func(all bool) {
+		for len(pending) > 0 {
+			c.Ops = append(c.Ops, Op{K: "rread", N: pending[0]})
+			pending = pending[1:]
+			if !all {
+				return
+			}
+		}
+	}
 	for len(c.Ops) < nsteps {
+		if len(pending) > 0 && r.Intn(100) < 25 {
+			flushReaders(false)
+		}
+		if p.held > 0 && len(pending) < 2 && r.Intn(100) < p.held {
+			tx := -1
+			if p.txWeight > 0 && len(open) > 0 && r.Intn(2) == 0 {
+				tx = open[r.Intn(len(open))]
+			}
+			nextReader++
+			c.Ops = append(c.Ops, Op{K: "ropen", Tx: tx + 1, Key: pickKey(), N: nextReader})
+			pending = append(pending, nextReader)
+			continue
+		}
 		// control operations
 		if p.ctlWeight > 0 && r.Intn(100) < p.ctlWeight {
 			switch r.Pick(3, 3, 3, 2) {
@@ -137,6 +162,7 @@ func genSeqCase(r *simrt.Rand, p seqProfile) SeqCase {
 			continue
 		}
 		if p.reopen > 0 && r.Intn(100) < p.reopen {
+			flushReaders(true) // readers of the instance that is about to be closed are read first
 			c.Ops = append(c.Ops, Op{K: "reopen"})
 			// handles obtained from the closed instance are not used any more (outside the
 			// statements); what is checked after a reopen is that late calls made before it left
@@ -231,6 +257,7 @@ func genSeqCase(r *simrt.Rand, p seqProfile) SeqCase {
 			}
 		}
 	}
+	flushReaders(true)
 	decorateCtx(r, c.Ops)
 	return c
 }
